@@ -573,7 +573,7 @@ func TestVerifC01FreeRunning(t *testing.T) {
 			go func() { // writer of direction d
 				defer wg2.Done()
 				off := 0
-				r := drive.Call(120*time.Second, func() error {
+				r := drive.Call(30*time.Second, func() error {
 					for i, sz := range sizes[d] {
 						k, e := conns[d].Write(vfCounterStream(byte(d), off, sz))
 						if e != nil || k != sz {
@@ -590,7 +590,7 @@ func TestVerifC01FreeRunning(t *testing.T) {
 			}()
 			go func() { // reader of direction d is endpoint 1-d
 				defer wg2.Done()
-				r := drive.Call(120*time.Second, func() error {
+				r := drive.Call(30*time.Second, func() error {
 					buf := make([]byte, 4096)
 					for len(got[d]) < total[d] {
 						k, e := conns[1-d].Read(buf)
